@@ -43,6 +43,7 @@ import LinVerif.Model.CompleteLock
 import LinVerif.Model.C19Deadline
 import LinVerif.Model.C19Either
 import LinVerif.Model.C19PlanExec
+import LinVerif.Model.C19PoolQueue
 import LinVerif.Generated.C19
 import LinVerif.Generated.C19b
 
@@ -208,6 +209,58 @@ def final (s : State) : String :=
   let idle := if s.threads.all (fun t => t.code.isEmpty) then "yes" else "no"
   s!"cb={s.sh.fired.length} arg={showArg s} after={after} reg={s.sh.registered} fin={s.sh.finished} pending={s.sh.pending} idle={idle}"
 
+
+/-! ### op `poolq <slots> <n> <events…>` — the pool's queue (Model/C19PoolQueue.lean), tasks 0..n-1.
+events: s<i> submit, c<i> check, n<i> send, j<i> ctxReject, t take, x<i> exec, k<i> cancel, `stop`,
+`settle` (the pool runs by itself until nothing can move: exec / take / send / check, lowest task first).
+Capacity and closure shape are the regenerated ones. -/
+
+def pqEvent (w : String) : Option PoolQueue.Ev :=
+  if w = "t" then some .take
+  else if w = "stop" then some .stop
+  else
+    match w.toList with
+    | c :: ds =>
+      match (String.ofList ds).toNat? with
+      | some i =>
+        if c = 's' then some (.submit i) else if c = 'c' then some (.check i)
+        else if c = 'n' then some (.send i) else if c = 'j' then some (.ctxReject i)
+        else if c = 'x' then some (.exec i) else if c = 'k' then some (.cancel i) else none
+      | none => none
+    | [] => none
+
+def pqProgress (n : Nat) : List PoolQueue.Ev :=
+  (List.range n).map .exec ++ [.take] ++ (List.range n).map .send ++ (List.range n).map .check
+
+def pqSettle (c : PoolQueue.Cfg) (n : Nat) : Nat → PoolQueue.St → PoolQueue.St
+  | 0, s => s
+  | fuel + 1, s =>
+    match (pqProgress n).findSome? (fun e => PoolQueue.step c s e) with
+    | some s' => pqSettle c n fuel s'
+    | none => s
+
+/-- `none`: an event of the script is not enabled or unreadable (`some none` = unreadable) -/
+def pqRun (c : PoolQueue.Cfg) (n : Nat) : PoolQueue.St → List String → Option (Option PoolQueue.St)
+  | s, [] => some (some s)
+  | s, w :: ws =>
+    if w = "settle" then pqRun c n (pqSettle c n (8 * n + 8) s) ws
+    else match pqEvent w with
+      | none => some none
+      | some e => match PoolQueue.step c s e with
+        | some s' => pqRun c n s' ws
+        | none => none
+
+def pqShow (s : PoolQueue.St) (i : Nat) : String :=
+  let d := toString (s.done i)
+  match s.ph i with
+  | .executed => "x" ++ d
+  | .rejected => "j" ++ d
+  | .idle | .check | .select => "b" ++ d
+  | .queued | .held | .skipped => "r" ++ d
+
+def pqStuck (c : PoolQueue.Cfg) (n : Nat) (s : PoolQueue.St) : Bool :=
+  (pqProgress n ++ (List.range n).map PoolQueue.Ev.ctxReject).all fun e => (PoolQueue.step c s e).isNone
+
 def step (st : St) (ws : List String) : St × String :=
   match ws with
   | "new" :: toks =>
@@ -328,6 +381,16 @@ def step (st : St) (ws : List String) : St × String :=
         else (st, "not-allowed")
       | _, _, _ => (st, "bad-op")
     | [] => (st, "bad-op")
+  | "poolq" :: slots :: n :: evs =>
+    match slots.toNat?, n.toNat? with
+    | some slots, some n =>
+      let c := PoolQueue.cfgOf Generated.C19.poolTasksCapacity slots Generated.C19.pooledClosureIsExecFnOnly
+      match pqRun c n PoolQueue.init evs with
+      | some (some s) =>
+        (st, s!"tasks=[{" ".intercalate ((List.range n).map (pqShow s))}] stuck={pqStuck c n s}")
+      | some none => (st, "bad-op")
+      | none => (st, "not-allowed")
+    | _, _ => (st, "bad-op")
   | "pexec" :: toks =>
     match parsePlanTree toks with
     | some root =>
